@@ -142,7 +142,7 @@ func c18firstHop(c *Ctx) {
 			ok, why = false, "the TLS wrapper is not given the URL being dialed"
 		}
 	})
-	r.Check("C18.first-hop", shortFn(fn), "dial-function-by-configuration", fn.Pos(), ok && n >= 9 && len(seen) >= 7, fmt.Sprintf("%s (%d paths, %d configurations)", why, n, len(seen)))
+	r.Check("C18.first-hop", shortFn(fn), "dial-function-by-configuration", fn.Pos(), ok && n >= 7 && len(seen) >= 7, fmt.Sprintf("%s (%d paths, %d configurations)", why, n, len(seen)))
 
 	// netDialFn: which URL selects the first hop
 	{
